@@ -71,31 +71,117 @@ theorem tally_inv (P : Nat → Nat → Nat → Prop) (el : Election) (subject : 
   induction obs generalizing t with
   | nil => simp only [tally] at h; cases h; exact ht
   | cons r rest ih =>
-    simp only [tally] at h
-    split at h
-    · cases h
-    · rename_i vote hl
+    cases hl : el.votes.lookup (r, subject) with
+    | none => simp only [tally, hl] at h; cases h
+    | some vote =>
       have hm := lookup_mem _ _ _ hl
-      split at h
-      · cases h
-      · split at h
+      by_cases hy : vote.yes = true
+      · have key : ∀ c : Bool, (if c = true then (Except.error ElErr.twoForkRootsHash : Except ElErr Tally) else
+            if (!(count el.vals t.all r.validator).snd) = true then Except.error ElErr.twoForkRootsCount
+            else tally el subject rest
+              { yes := (count el.vals t.yes r.validator).fst, no := t.no,
+                all := (count el.vals t.all r.validator).fst, subject := some vote.observedRoot }) = .ok t' →
+            TInv P el.frameToDecide subject t' := by
+          intro c h
+          split at h
+          · cases h
+          · split at h
+            · cases h
+            · refine ih _ ?_ h
+              exact { some := by
+                        intro x hx
+                        simp only [Option.some.injEq] at hx
+                        subst hx
+                        exact hv _ _ hm hy
+                      none := by intro hx; simp at hx }
+        simp only [tally, hl, hy, if_true, Bool.true_and] at h
+        exact key _ h
+      · have hy' : vote.yes = false := by simpa using hy
+        simp only [tally, hl, hy', Bool.false_and, Bool.false_eq_true, if_false] at h
+        split at h
         · cases h
         · refine ih _ ?_ h
-          by_cases hy : vote.yes = true
-          · simp only [hy, if_true]
-            exact { some := by
-                      intro x hx
-                      simp only [Option.some.injEq] at hx
-                      subst hx
-                      exact hv _ _ hm hy
-                    none := by intro hx; simp at hx }
-          · simp only [hy, Bool.false_eq_true, if_false]
-            exact { some := fun x hx => ht.some x hx
-                    none := by
-                      intro hx
-                      have := ht.none hx
-                      refine ⟨this.1, ?_⟩
-                      show (count el.vals t.no r.validator).1 = (count el.vals t.all r.validator).1
-                      rw [this.2] }
+          exact { some := fun x hx => ht.some x hx
+                  none := by
+                    intro hx
+                    have := ht.none hx
+                    refine ⟨this.1, ?_⟩
+                    show (count el.vals t.no r.validator).1 = (count el.vals t.all r.validator).1
+                    rw [this.2] }
+
+/-- what `voteLoop` does with one computed vote -/
+def pushVote (e : Election) (newRoot : Root) (s : Nat) (vote : VoteValue) : Election :=
+  let e1 := if vote.decided then { e with decidedRoots := (s, vote) :: e.decidedRoots } else e
+  { e1 with votes := ((newRoot, s), vote) :: e1.votes }
+
+theorem pushVote_votes (e : Election) (newRoot : Root) (s : Nat) (vote : VoteValue) :
+    (pushVote e newRoot s vote).votes = ((newRoot, s), vote) :: e.votes := by
+  unfold pushVote; cases vote.decided <;> rfl
+theorem pushVote_ftd (e : Election) (newRoot : Root) (s : Nat) (vote : VoteValue) :
+    (pushVote e newRoot s vote).frameToDecide = e.frameToDecide := by
+  unfold pushVote; cases vote.decided <;> rfl
+theorem pushVote_vals (e : Election) (newRoot : Root) (s : Nat) (vote : VoteValue) :
+    (pushVote e newRoot s vote).vals = e.vals := by
+  unfold pushVote; cases vote.decided <;> rfl
+theorem pushVote_decided (e : Election) (newRoot : Root) (s : Nat) (vote : VoteValue) :
+    (pushVote e newRoot s vote).decidedRoots =
+      if vote.decided = true then (s, vote) :: e.decidedRoots else e.decidedRoots := by
+  unfold pushVote; cases vote.decided <;> rfl
+
+/-- accumulator invariant of `voteLoop` -/
+structure AInv (P : Nat → Nat → Nat → Prop) (el e : Election) (subjects : List Nat) : Prop where
+  inv : Inv P e
+  ftd : e.frameToDecide = el.frameToDecide
+  vals : e.vals = el.vals
+  fresh : ∀ s ∈ subjects, s ∉ e.decidedRoots.map (·.1)
+  nd : subjects.Nodup
+
+theorem AInv_push (P : Nat → Nat → Nat → Prop) (el e : Election) (newRoot : Root) (s : Nat) (rest : List Nat)
+    (vote : VoteValue) (hacc : AInv P el e (s :: rest))
+    (hy : vote.yes = true → P el.frameToDecide s vote.observedRoot)
+    (hd : vote.decided = true → el.frameToDecide + 2 ≤ newRoot.frame) :
+    AInv P el (pushVote e newRoot s vote) rest := by
+  have hnd := List.nodup_cons.1 hacc.nd
+  refine { inv := { votes := ?_, decided := ?_, nodup := ?_ }, ftd := ?_, vals := ?_, fresh := ?_, nd := hnd.2 }
+  · intro k v hm hyes
+    rw [pushVote_votes] at hm
+    rw [pushVote_ftd]
+    rcases List.mem_cons.1 hm with heq | hm
+    · cases heq; rw [hacc.ftd]; exact hy hyes
+    · exact hacc.inv.votes k v hm hyes
+  · intro s' v hm
+    rw [pushVote_decided] at hm
+    rw [pushVote_ftd, pushVote_votes]
+    have old : (s', v) ∈ e.decidedRoots → v.decided = true ∧
+        (v.yes = true → P e.frameToDecide s' v.observedRoot) ∧
+        ∃ r, ((r, s'), v) ∈ ((newRoot, s), vote) :: e.votes ∧ e.frameToDecide + 2 ≤ r.frame := by
+      intro hm
+      obtain ⟨h1, h2, r, h3, h4⟩ := hacc.inv.decided s' v hm
+      exact ⟨h1, h2, r, List.mem_cons_of_mem _ h3, h4⟩
+    by_cases hdec : vote.decided = true
+    · rw [if_pos hdec] at hm
+      rcases List.mem_cons.1 hm with heq | hm
+      · cases heq
+        rw [hacc.ftd]
+        exact ⟨hdec, hy, newRoot, List.mem_cons_self, hd hdec⟩
+      · exact old hm
+    · rw [if_neg hdec] at hm; exact old hm
+  · rw [pushVote_decided]
+    by_cases hdec : vote.decided = true
+    · rw [if_pos hdec]
+      simp only [List.map_cons]
+      exact List.nodup_cons.2 ⟨hacc.fresh s List.mem_cons_self, hacc.inv.nodup⟩
+    · rw [if_neg hdec]; exact hacc.inv.nodup
+  · rw [pushVote_ftd]; exact hacc.ftd
+  · rw [pushVote_vals]; exact hacc.vals
+  · intro s' hs'
+    rw [pushVote_decided]
+    have hne : s' ≠ s := by intro h; subst h; exact hnd.1 hs'
+    have hold := hacc.fresh s' (List.mem_cons_of_mem _ hs')
+    by_cases hdec : vote.decided = true
+    · rw [if_pos hdec]
+      simp only [List.map_cons, List.mem_cons, not_or]
+      exact ⟨hne, hold⟩
+    · rw [if_neg hdec]; exact hold
 
 end ElectionProofs
